@@ -27,8 +27,8 @@
 
 /* dependencies of Vertex4::value: opaque objects with an identity; their values are opaque functions
  * of (identity, frequency arguments) */
-struct TwoParticleGF { long id; };
-struct GreensFunction { long id; };
+struct TwoParticleGF { long id; double beta; };      /* identity + the inverse temperature it was built for (Thermal base) */
+struct GreensFunction { long id; double beta; };
 struct Vertex4;
 //@struct Pomerol::MatsubaraContainer4<Pomerol::Vertex4>
 //@struct Pomerol::Vertex4 embed=Chi4,G13,G24,G14,G23
@@ -151,7 +151,7 @@ __CPROVER_loop_invariant(HIT_INV(BosonicIndexV > g_V || (BosonicIndexV == g_V &&
 __CPROVER_decreases(FermionicMatrixSize - NupIndexM)
 //@end
 
-//@harness h_MC4_fill enforce=MC4_fill props=C15,C17 min_obl=1640 reach=3 timeout=900 defs=-DMON_FILL
+//@harness h_MC4_fill enforce=MC4_fill props=C15,C17 min_obl=1640 reach=3 timeout=900 defs=-DMON_FILL tier=thorough
 void h_MC4_fill(void)
 {
   struct MC4 *c; struct Vertex4 *src; long N;
@@ -318,6 +318,47 @@ void h_Vertex4_call(void)
   REACH("exit");
 }
 
+/* ======================= Vertex4::Vertex4 =======================
+ * Header (include/pomerol/Vertex4.h): Vertex4(TwoParticleGF& Chi4, GreensFunction& G13, GreensFunction& G24,
+ * GreensFunction& G14, GreensFunction& G23) -- the role of each argument is its name (G_{13} connects operators 1 and 3 ...),
+ * the reference members carry the same names.  Reference members are modelled as embedded copies of the opaque
+ * dependency objects (identity `id`): "member X refers to argument X" is `self->X.id == X->id`.
+ * Thermal(Chi4.beta): the vertex has the temperature of chi; ComputableObject(): Status = Constructed;
+ * Storage: default-constructed = empty window (N = 0, no source, both vectors empty). */
+//@tu src/pomerol/Thermal.cpp
+//@global I
+//@struct Pomerol::Thermal
+//@function Pomerol::Thermal::Thermal(double) as Thermal_base
+//@end
+#define Thermal_ctor1(selfp, b) Thermal_base_init((selfp), (b))
+//@tu src/pomerol/Vertex4.cpp
+struct ComputableObject { unsigned int Status; };
+//@function Pomerol::ComputableObject::ComputableObject() as ComputableObject_base
+//@end
+/* the printer passes the derived object's address for every base; the ComputableObject sub-object of the flattened
+ * struct Vertex4 is the field Status */
+#define ComputableObject_ctor0(selfp) ComputableObject_base_init((struct ComputableObject *)&((struct Vertex4 *)(selfp))->Status)
+//@function Pomerol::MatsubaraContainer4<Pomerol::Vertex4>::MatsubaraContainer4() as MC4_ctor0
+//@end
+//@function Pomerol::Vertex4::Vertex4(Pomerol::TwoParticleGF&, Pomerol::GreensFunction&, Pomerol::GreensFunction&, Pomerol::GreensFunction&, Pomerol::GreensFunction&) as Vertex4_ctor5
+//@contract
+__CPROVER_requires(__CPROVER_is_fresh(self, sizeof(*self)) && __CPROVER_is_fresh(Chi4, sizeof(*Chi4)))
+__CPROVER_requires(__CPROVER_is_fresh(G13, sizeof(*G13)) && __CPROVER_is_fresh(G24, sizeof(*G24)) && __CPROVER_is_fresh(G14, sizeof(*G14)) && __CPROVER_is_fresh(G23, sizeof(*G23)))
+__CPROVER_assigns(*self)
+/* every reference member refers to the argument of the same documented role */
+__CPROVER_ensures(self->Chi4.id == Chi4->id && self->G13.id == G13->id && self->G24.id == G24->id && self->G14.id == G14->id && self->G23.id == G23->id)
+/* temperature of chi, status Constructed, empty storage */
+__CPROVER_ensures(D_SAME(self->beta, Chi4->beta) && self->Status == Constructed)
+__CPROVER_ensures(self->Storage.NumberOfMatsubaras == 0 && self->Storage.pSource == (void *)0 && self->Storage.Values.size == 0 && self->Storage.FermionicIndexOffset.size == 0)
+//@end
+//@harness h_Vertex4_ctor enforce=Vertex4_init5 props=C15 min_obl=10 reach=1 timeout=120
+void h_Vertex4_ctor(void)
+{
+  struct Vertex4 *v; struct TwoParticleGF *chi; struct GreensFunction *g13, *g24, *g14, *g23;
+  Vertex4_init5(v, chi, g13, g24, g14, g23);
+  REACH("exit");
+}
+
 //@function Pomerol::Vertex4::compute(long) as Vertex4_compute
 //@contract
 __CPROVER_requires(__CPROVER_is_fresh(self, sizeof(*self)))
@@ -428,6 +469,8 @@ void h_MC1_call(void)
  *   `G24(n2)` -> `G24(n1)`; factor beta dropped           : Vertex4_value.postcondition.1 (each)
  * Vertex4::operator() (h_Vertex4_call): `Storage(n1,n2,n3)` -> `Storage(n1,n3,n2)` : Vertex4_call.postcondition.1/.2, MC4_call.precondition
  * Vertex4::compute (h_Vertex4_compute): `fill(this,N)` -> `fill(this,N+1)`          : MC4_fill.precondition, Vertex4_compute.postcondition.1
+ * Vertex4::Vertex4 (h_Vertex4_ctor): seeded `G14(G23), G23(G14)`; `G13(G24), G24(G13)`; `Thermal(G13.beta)` : Vertex4_init5.postcondition.1 / .2
+ * MatsubaraContainer4::operator() seeded: guard `NuIndexM >= 0` dropped (h_MC4_call): MC4_call.postcondition.1/.3/.4, CMat_call.assertion.1 (row index inside the matrix)
  * MatsubaraContainer1::operator() (h_MC1_call): `n < N` -> `n <= N` : MC1_call.postcondition.1/.3/.4, CVec_call.assertion;
  *   `Values(N+n)` -> `Values(N-n)`                        : MC1_call.postcondition.2/.4, CVec_call.assertion
  * MatsubaraContainer1::fill (h_MC1_fill): `resize(2N)` -> `resize(2N-1)` : CVec_resize/CVec_call assertions, MC1_fill.postcondition.1;
